@@ -113,6 +113,18 @@ def is_effect_free(u):
     return scan(u.body)
 
 
+def _port_helpers(ctx, cfn, kernel):
+    """functions defined in the unit's own source file that are not the port of any reference unit (file-local helpers)"""
+    ported = {id(f) for fs in ctx.cands.values() for f in fs if any(n == k for k in ctx.units for n in [k])}
+    mapped = {id(f) for name, fs in ctx.cands.items() if name in ctx.units for f in fs}
+    out = {}
+    for key, f in ctx.prog.functions.items():
+        if f.get('file') == cfn.get('file') and f is not cfn and f is not kernel and id(f) not in mapped and f.get('main_file', True) \
+                and not f.get('method'):
+            out[f['name']] = f
+    return out
+
+
 def run(rep, which, tier):
     ctx = Context()
     D = ctx.D
@@ -202,7 +214,7 @@ def run(rep, which, tier):
                     'reference unit %s (reached by the reference dispatch) has no C++ counterpart' % name, False,
                     ['callers in the reference: %s' % ', '.join(sorted(c for c, o in ctx.cg.items() if name in o))])
             continue
-        r = tvrun.compare_unit(u, cfn, ctx.sigs, kernel)
+        r = tvrun.compare_unit(u, cfn, ctx.sigs, kernel, opts={'helpers': _port_helpers(ctx, cfn, kernel)})
         compared += 1
         nodes += r.nodes
         for a in r.admissible:
